@@ -146,6 +146,15 @@ CLAIMED = {
         "Signedness and typedef spelling are ignored; type(C_PTR)/void* matches any object pointer. A module gfortran rejects is reported by C05, not here.",
         "DESIGN.md section 3 C04",
     ),
+    "C18": (
+        "exhaustive enumeration of argument stacks (0..arity+1 values over nil/boolean/number/string/userdata) for every registered function and method, executed on a reference Lua C-API emulator; dispatch model",
+        "The Lua binding the real shroud generates for a library of scalar/bool/string functions, overload sets distinguishable by count and Lua type, trailing defaults (up to three "
+        "parameters) and a class with constructor, destructor and methods is compiled against a reference emulator of the Lua C API (vt/luaemu) and every registered function is invoked with "
+        "every argument stack up to arity+1 over the Lua value alphabet (5.3k invocations quick, 9.4k+ thorough). The model selects the signature by argument count and Lua types in "
+        "declaration order; the library's per-call RECV lines, the pushed results and the reported result count must match, a stack matching no signature must raise a Lua error, and no call may crash.",
+        "No Lua interpreter is installed: behaviour is relative to the emulator (Lua 5.3 semantics for the API subset wrapl.py emits). Four defect classes are known findings.",
+        "DESIGN.md section 3 C18",
+    ),
 }
 
 PENDING_REASON = "check not built yet in this round (planned, see DESIGN.md section 8); not claimed until it runs"
